@@ -189,7 +189,7 @@ def replay_family(legs, idx, name, kw, sample, devs, seed):
                            PREFIX + "%s_%s.ndjson" % (name, v["class"].replace(":", "_").replace("/", "_")))
     if summ.get("unstable"):
         vlib.log("listen-faults replay %s: %d run(s) differed once and conformed when re-executed alone with more patience "
-                 "(unstable, not a verdict)" % (name, summ["unstable"]))
+                 "(unstable, not a verdict): %s" % (name, summ["unstable"], json.dumps(summ.get("unstable_classes", {}))))
     with legs.lock:
         legs.extra["listen_faults_unstable_replay_runs"] = legs.extra.get("listen_faults_unstable_replay_runs", 0) + summ.get("unstable", 0)
         legs.evaluations += summ["responses"] + summ["probes"] + summ["hook_events"]
